@@ -1294,16 +1294,14 @@ func (lbc *LoadBalancerController) processChanges(changes []ResourceChange) {
 					nl.Errorf(lbc.Logger, "Error when deleting configuration for VirtualServer %v: %v", key, deleteErr)
 				}
 
-				var vsExists bool
-				var err error
-
 				ns, _, _ := cache.SplitMetaNamespaceKey(key)
-				_, vsExists, err = lbc.getNamespacedInformer(ns).virtualServerLister.GetByKey(key)
+				vs, vsExists, err := lbc.getNamespacedInformer(ns).virtualServerLister.GetByKey(key)
 				if err != nil {
 					nl.Errorf(lbc.Logger, "Error when getting VirtualServer for %v: %v", key, err)
 				}
 
-				if vsExists {
+				// a VirtualServer that moved to another class is removed silently, whatever warnings it carried
+				if vsExists && lbc.HasCorrectIngressClass(vs) {
 					lbc.UpdateVirtualServerStatusAndEventsOnDelete(impl, c.Error, deleteErr)
 				}
 			case *IngressConfiguration:
@@ -1316,16 +1314,14 @@ func (lbc *LoadBalancerController) processChanges(changes []ResourceChange) {
 					nl.Errorf(lbc.Logger, "Error when deleting configuration for Ingress %v: %v", key, deleteErr)
 				}
 
-				var ingExists bool
-				var err error
-
 				ns, _, _ := cache.SplitMetaNamespaceKey(key)
-				_, ingExists, err = lbc.getNamespacedInformer(ns).ingressLister.GetByKeySafe(key)
+				ing, ingExists, err := lbc.getNamespacedInformer(ns).ingressLister.GetByKeySafe(key)
 				if err != nil {
 					nl.Errorf(lbc.Logger, "Error when getting Ingress for %v: %v", key, err)
 				}
 
-				if ingExists {
+				// an Ingress that moved to another class is removed silently, whatever warnings it carried
+				if ingExists && lbc.HasCorrectIngressClass(ing) {
 					lbc.UpdateIngressStatusAndEventsOnDelete(impl, c.Error, deleteErr)
 				}
 			case *TransportServerConfiguration:
@@ -1337,15 +1333,13 @@ func (lbc *LoadBalancerController) processChanges(changes []ResourceChange) {
 					nl.Errorf(lbc.Logger, "Error when deleting configuration for TransportServer %v: %v", key, deleteErr)
 				}
 
-				var tsExists bool
-				var err error
-
 				ns, _, _ := cache.SplitMetaNamespaceKey(key)
-				_, tsExists, err = lbc.getNamespacedInformer(ns).transportServerLister.GetByKey(key)
+				ts, tsExists, err := lbc.getNamespacedInformer(ns).transportServerLister.GetByKey(key)
 				if err != nil {
 					nl.Errorf(lbc.Logger, "Error when getting TransportServer for %v: %v", key, err)
 				}
-				if tsExists {
+				// a TransportServer that moved to another class is removed silently, whatever warnings it carried
+				if tsExists && lbc.HasCorrectIngressClass(ts) {
 					lbc.updateTransportServerStatusAndEventsOnDelete(impl, c.Error, deleteErr)
 				}
 			}
